@@ -470,6 +470,92 @@ pub fn run_op2(toks: &[&str]) -> String {
             let (c, ro, rl, lo, rg, img) = (parse_comp(c), unhex_u64(ro), unhex_u64(rl), unhex_u64(lo), parse_range(rg), unhex_bytes(img));
             guard(|| rdirs(asy, c, ro, rl, lo, rg, &img).map(|m| tiles_tok(&m)))
         }
+        ["io_read_exact", mode, n, pos, sched, img] => {
+            use crate::streams::{AsyncStream, Core, Schedule, SyncStream};
+            let (n, pos, sched, img) = (unhex_u64(n) as usize, unhex_u64(pos), parse_nums(sched), unhex_bytes(img));
+            let asy = crate::ops::is_async(mode);
+            guard(|| {
+                let mut core = Core::new(img.clone(), pos);
+                // the model's schedule is consumed once and then transfers are full: pad with a huge limit
+                let mut ch: Vec<usize> = sched.iter().map(|x| (*x as usize).max(1)).collect();
+                ch.extend(std::iter::repeat(usize::MAX / 2).take(4096));
+                core.sched = Schedule { chunks: ch, pend: if asy { vec![true, false] } else { vec![] } };
+                let mut buf = vec![0u8; n];
+                let p = if asy {
+                    let mut s = AsyncStream(core);
+                    block_on(futures::AsyncReadExt::read_exact(&mut s, &mut buf))?;
+                    s.0.pos
+                } else {
+                    let mut s = SyncStream(core);
+                    std::io::Read::read_exact(&mut s, &mut buf)?;
+                    s.0.pos
+                };
+                Ok(format!("{} {p:x}", hex_bytes(&buf)))
+            })
+        }
+        ["io_read_to_end", mode, limit, pos, sched, img] => {
+            use crate::streams::{AsyncStream, Core, Schedule, SyncStream};
+            let (limit, pos, sched, img) = (unhex_u64(limit), unhex_u64(pos), parse_nums(sched), unhex_bytes(img));
+            let asy = crate::ops::is_async(mode);
+            guard(|| {
+                let mut core = Core::new(img.clone(), pos);
+                let mut ch: Vec<usize> = sched.iter().map(|x| (*x as usize).max(1)).collect();
+                ch.extend(std::iter::repeat(usize::MAX / 2).take(4096));
+                core.sched = Schedule { chunks: ch, pend: if asy { vec![false, true] } else { vec![] } };
+                let mut out = Vec::new();
+                if asy {
+                    let s = AsyncStream(core);
+                    let mut t = futures::AsyncReadExt::take(s, limit);
+                    block_on(futures::AsyncReadExt::read_to_end(&mut t, &mut out))?;
+                } else {
+                    let s = SyncStream(core);
+                    let mut t = std::io::Read::take(s, limit);
+                    std::io::Read::read_to_end(&mut t, &mut out)?;
+                }
+                Ok(hex_bytes(&out))
+            })
+        }
+        ["io_write_all", mode, pos, sched, pre, bs] => {
+            use crate::streams::{AsyncStream, Core, Schedule, SyncStream};
+            let (pos, sched, pre, bs) = (unhex_u64(pos), parse_nums(sched), unhex_bytes(pre), unhex_bytes(bs));
+            let asy = crate::ops::is_async(mode);
+            guard(|| {
+                let mut core = Core::new(pre.clone(), pos);
+                let mut ch: Vec<usize> = sched.iter().map(|x| (*x as usize).max(1)).collect();
+                ch.extend(std::iter::repeat(usize::MAX / 2).take(4096));
+                core.sched = Schedule { chunks: ch, pend: if asy { vec![true, true, false] } else { vec![] } };
+                let core = if asy {
+                    let mut s = AsyncStream(core);
+                    block_on(futures::AsyncWriteExt::write_all(&mut s, &bs))?;
+                    s.0
+                } else {
+                    let mut s = SyncStream(core);
+                    std::io::Write::write_all(&mut s, &bs)?;
+                    s.0
+                };
+                Ok(format!("{} {:x}", hex_bytes(&core.data), core.pos))
+            })
+        }
+        ["owin", mode, rg, img] => {
+            // byte ranges read while opening (merged), through a recording reader
+            let (rg, img) = (parse_range(rg), unhex_bytes(img));
+            let asy = crate::ops::is_async(mode);
+            guard(|| {
+                use crate::streams::{read_ranges, AShared, Core, Shared};
+                let rr = if asy {
+                    let sh = AShared::new(Core::new(img.clone(), 0));
+                    block_on(PMTiles::from_async_reader_partially(sh.clone(), rg))?;
+                    let g = sh.0.lock().unwrap();
+                    read_ranges(&g.log)
+                } else {
+                    let sh = Shared::new(Core::new(img.clone(), 0));
+                    PMTiles::from_reader_partially(sh.clone(), rg)?;
+                    let g = sh.0.borrow();
+                    read_ranges(&g.log)
+                };
+                Ok(if rr.is_empty() { "-".to_string() } else { rr.iter().map(|(a, b)| format!("{a:x}-{b:x}")).collect::<Vec<_>>().join(",") })
+            })
+        }
         ["hist", mode, ops] => match catch_unwind(AssertUnwindSafe(|| run_hist(mode, ops))) {
             Ok(s) => s,
             Err(_) => "harness-panic".into(),
